@@ -104,6 +104,9 @@ type gIface struct {
 type gConfig struct {
 	ifaces      []gIface
 	debugAddr   string
+	// padBefore / padBetween: kilobytes of comment lines before the first stanza / between the
+	// interface stanzas (a long, well-commented file: what is accepted does not depend on its size)
+	padBefore, padBetween int
 	prom, pprof bool
 }
 
@@ -135,7 +138,16 @@ func qs(ss []string) string {
 
 func (c gConfig) toml() string {
 	var sb strings.Builder
-	for _, i := range c.ifaces {
+	pad := func(kb int) {
+		for n := 0; n < kb*1024; n += 64 {
+			sb.WriteString("# 0123456789 0123456789 0123456789 0123456789 0123456789 012345\n")
+		}
+	}
+	pad(c.padBefore)
+	for k, i := range c.ifaces {
+		if k > 0 {
+			pad(c.padBetween)
+		}
 		sb.WriteString("[[interfaces]]\n")
 		if i.name != "" {
 			fmt.Fprintf(&sb, "name = %s\n", q(i.name))
@@ -888,6 +900,9 @@ func genConfig(r *vfh.Rand, valid int) gConfig {
 		}
 		c.ifaces = append(c.ifaces, i)
 	}
+	if r.Chance(1, 150) { // a long document
+		c.padBefore, c.padBetween = r.Intn(3)*40, 30+r.Intn(100)
+	}
 	switch r.Intn(8) {
 	case 0:
 		c.debugAddr = "localhost:9430"
@@ -1147,6 +1162,14 @@ func boundaryConfigs() []gConfig {
 		gConfig{ifaces: []gIface{{name: "eth0", monitor: true, maxInterval: "1s", mtu: -5, prefixes: []gPrefix{{prefix: "bogus"}}}}},
 		gConfig{ifaces: []gIface{{name: "eth0"}}},
 		gConfig{ifaces: []gIface{{name: "eth0", advertise: true}}, debugAddr: "x:y:z"},
+		// long documents: 70 KiB / 300 KiB of comments before the first stanza, or between a valid
+		// stanza and a second one that is valid / repeats the name / has a bad interval
+		gConfig{ifaces: []gIface{{name: "eth0", advertise: true}}, padBefore: 70},
+		gConfig{ifaces: []gIface{{name: "eth0", advertise: true}}, padBefore: 300},
+		gConfig{ifaces: []gIface{{name: "eth0", advertise: true}, {name: "eth1", advertise: true}}, padBetween: 70},
+		gConfig{ifaces: []gIface{{name: "eth0", advertise: true}, {name: "eth0", advertise: true}}, padBetween: 70},
+		gConfig{ifaces: []gIface{{name: "eth0", advertise: true}, {name: "eth1", advertise: true, maxInterval: "1s"}}, padBetween: 130},
+		gConfig{ifaces: []gIface{{name: "eth0", advertise: true}, {name: "eth1", monitor: true, advertise: true}}, padBefore: 20, padBetween: 50},
 		gConfig{ifaces: []gIface{{name: "eth0", advertise: true}}, debugAddr: "localhost:notaport"},
 		gConfig{ifaces: []gIface{{name: "eth0", advertise: true}}, debugAddr: "[::1]:94e30"},
 		gConfig{ifaces: []gIface{{name: "eth0", advertise: true}}, debugAddr: ":9430", prom: true, pprof: true},
